@@ -43,6 +43,11 @@ def check(c: Check):
     clause_f(c)
     clause_g(c)
     clause_h(c)
+    clause_i(c)
+    clause_j(c)
+    clause_k(c)
+    clause_l(c)
+    clause_m(c)
 
 
 # ------------------------------------------------------------------ shared: symbolic texts
@@ -526,9 +531,13 @@ def clause_b(c: Check):
 
 
 def _flatten_op(v):
+    """operands of an arithmetic value built by binary operators / augmented assignments"""
     out = []
     if isinstance(v, Sym) and v.origin and v.origin[0] == 'op':
         for x in v.origin[2]:
+            out.extend(_flatten_op(x))
+    elif isinstance(v, Sym) and v.origin and v.origin[0] == 'aug':
+        for x in v.origin[1:3]:
             out.extend(_flatten_op(x))
     else:
         out.append(v)
@@ -814,3 +823,337 @@ def clause_h(c: Check):
                                '%s a primitive that removes any white space' % ('uses' if v_ else 'does not use') if k == 'any-space' else
                                '%s new-lines' % ('handles' if v_ else 'does not handle') for k, v_ in bad.items())), d.loc())
     _expect_maps_every_line(c, 'C05-h', tr_cls, 'transformer')
+
+
+# ------------------------------------------------------------------ i: replace
+RP = ST + 'replace.impl'
+
+
+def clause_i(c: Check):
+    """replace: (1) DT of the transformer's constructor: -preserve-new-lines selects the replacer that keeps the
+    new-line out of the substitution, its absence the one that substitutes in the whole line; -at selects the applier
+    that consults the line matcher, its absence the one that substitutes in every line. (2) EVAL of the replacers on
+    a symbolic line `body '\\n'`: including -> sub(line); excluding -> sub(body) + '\\n'; and on a last line without
+    new-line: sub(line). (3) the substitution is `<pattern>.sub(<replacement>, <text>)` with the constructor's pattern
+    and replacement. (4) DT of the selecting replacer: a line whose model matches is replaced, any other line is
+    given unchanged; the models come from original_and_model_iter_from_file_line_iter (C05-e)."""
+    ix, fo = c.ix, c.fo
+    tr = ix.cls(RP + ':_ReplaceStringTransformer')
+    incl = ix.cls(RP + ':_StrReplacerIncludingNewLines')
+    excl = ix.cls(RP + ':_StrReplacerExcludingNewLines')
+    wo = ix.cls(RP + ':_ReplacerApplierWoLineMatcherSelector')
+    wi = ix.cls(RP + ':_ReplacerApplierWLineMatcherSelector')
+    base = ix.cls(RP + ':_StrReplacer')
+
+    class H0(Hooks):
+        def inline(self, fd, st):
+            return False
+
+        def inline_class(self, cd, st):
+            return False
+
+    # (1)
+    for preserve in (True, False):
+        for selector in (True, False):
+            it = Interp(ix, fo, H0())
+            sel = Sym('selector', nullness=False, truth=True) if selector else NONE
+            pat, rep = Sym('pattern'), Sym('replacement')
+            insts = it.instantiate(tr, State(), {'lines_selector': sel, 'preserve_new_lines': K(preserve),
+                                                 'compiled_regular_expression': pat, 'replacement': rep})
+            key = 'replace/%s/%s' % ('preserve-new-lines' if preserve else 'default', 'at' if selector else 'every-line')
+            c.require(len(insts) == 1, 'C05-i: %d constructor paths for %s' % (len(insts), key))
+            obj, st = insts[0]
+            ap = st.heap.get((obj.oid, '_replacer_applier'))
+            con = util.constructed(ix, ap)
+            want_ap = wi if selector else wo
+            ok = con is not None and con[0] == want_ap.key
+            replacer = None
+            if ok:
+                args = list(con[3].values())
+                replacer = args[-1]
+                if selector:
+                    ok = args[0] is sel
+            rcon = util.constructed(ix, replacer) if replacer is not None else None
+            want_r = excl if preserve else incl
+            ok = ok and rcon is not None and rcon[0] == want_r.key and list(rcon[3].values())[:2] == [pat, rep] \
+                 and all(a is b for a, b in zip(list(rcon[3].values())[:2], [pat, rep]))
+            c.expect(ok, 'C05-i', key + '/construction',
+                     '%s builds %s with %s (expected %s with a %s of (pattern, replacement))' % (
+                         key, con[0].split(':')[-1] if con else util.describe(ap),
+                         rcon[0].split(':')[-1] if rcon else '?', want_ap.name, want_r.name), tr.loc())
+    # (2) + (3)
+    sub = ix.class_member(base, '_sub')
+
+    class H1(Hooks):
+        symbolic_strings = True
+
+        def inline(self, fd, st):
+            return False
+
+    for cls in (incl, excl):
+        proc = ix.class_member(cls, 'process')
+        for shape in ('with-new-line', 'last-line-without-new-line'):
+            it = Interp(ix, fo, H1())
+            obj = it.new_obj(cls)
+            body = Sym('body')
+            line = StrCat([body, K('\n')]) if shape == 'with-new-line' else StrCat([body, K('x')])
+            for p in it.run_function(proc, {proc.positional_params()[1].arg: line}, State(), recv=obj):
+                c.count()
+                if p.kind != 'return':
+                    continue
+                v = p.val
+                tail = None
+                if isinstance(v, StrCat) and len(v.parts) == 2 and isinstance(v.parts[1], K):
+                    v, tail = v.parts[0], v.parts[1].v
+                nm, recv, args, ev = call_of(p, v)
+                arg = args[0] if len(args) == 1 else None
+                if cls is excl and shape == 'with-new-line':
+                    ok = nm == '_sub' and tail == '\n' and isinstance(arg, StrCat) and arg.key() == StrCat([body]).key()
+                    want = "_sub(<line without its new-line>) + '\\n'"
+                else:
+                    ok = nm == '_sub' and tail is None and arg is line
+                    want = '_sub(<the line>)'
+                c.expect(ok, 'C05-i', '%s.process/%s' % (cls.name, shape),
+                         '%s.process on a line %s gives %s%s (expected %s)' % (
+                             cls.name, shape, util.describe(p.val) if not isinstance(p.val, StrCat) else repr(p.val),
+                             ' of %r' % (arg,) if arg is not None else '', want), proc.loc())
+    it = Interp(ix, fo, H1())
+    pat, rep = Sym('pattern'), Sym('replacement')
+    insts = it.instantiate(incl, State(), {'compiled_regular_expression': pat, 'replacement': rep})
+    obj, st = insts[0]
+    text = Sym('text')
+    n_sub = 0
+    for p in it.run_function(sub, {sub.positional_params()[1].arg: text}, st, recv=obj):
+        if p.kind != 'return':
+            continue
+        n_sub += 1
+        nm, recv, args, ev = call_of(p, p.val)
+        ok = nm == 'sub' and recv is pat and len(args) == 2 and args[0] is rep and args[1] is text and not ev.data['kwargs']
+        c.expect(ok, 'C05-i', '_sub/pattern-replacement-text-in-their-roles',
+                 'the substitution is %s (expected <pattern>.sub(<replacement>, <text>))' % (
+                     unparse(ev.node) if ev is not None else util.describe(p.val)), sub.loc())
+    c.require(n_sub >= 1, 'C05-i: _StrReplacer._sub has no returning path')
+    # (4)
+    selr = ix.cls(RP + ':_ReplacerWLineMatcherSelector')
+    proc = ix.class_member(selr, 'process')
+    mr = ix.cls('exactly_lib.type_val_prims.matcher.matching_result:MatchingResult')
+    for matches in (True, False):
+        class H2(Hooks):
+            def inline(self, fd, st):
+                return False
+
+            def opaque_result(self, interp, cdef, node, args, kwargs, st):
+                if isinstance(node.func, ast.Attribute) and node.func.attr in ('matches_w_trace', 'matches'):
+                    return K(Record(mr, {'value': matches, 'trace': Sym('trace')})) if node.func.attr == 'matches_w_trace' else K(matches)
+                return None
+
+        it = Interp(ix, fo, H2())
+        sel, rpl = Sym('selector'), Sym('str-replacer')
+        obj, st = it.instantiate(selr, State(), {'lines_selector': sel, 'str_replacer': rpl})[0]
+        orig, model = StrCat([Sym('body'), K('\n')]), Sym('line-model')
+        for p in it.run_function(proc, {proc.positional_params()[1].arg: ListVal([orig, model], True)}, st, recv=obj):
+            if p.kind != 'return':
+                continue
+            asked = [e for e in p.calls() if isinstance(e.node.func, ast.Attribute) and e.node.func.attr in ('matches_w_trace', 'matches')]
+            ok = len(asked) == 1 and len(asked[0].data['args']) == 1 and asked[0].data['args'][0] is model
+            if matches:
+                nm, recv, args, ev = call_of(p, p.val)
+                ok = ok and ev is not None and ev.data.get('callee_val') is rpl and len(args) == 1 and args[0] is orig
+            else:
+                ok = ok and p.val is orig
+            c.expect(ok, 'C05-i', 'selecting-replacer/%s' % ('selected' if matches else 'not-selected'),
+                     'a line whose model %s the -at matcher gives %s (expected %s)' % (
+                         'matches' if matches else 'does not match',
+                         util.describe(p.val) if not isinstance(p.val, StrCat) else repr(p.val),
+                         'the replacer applied to the line as read' if matches else 'the line as read, unchanged'), proc.loc())
+    # the applier with a selector feeds the pairs of the model constructor
+    wproc = ix.class_member(wi, 'process')
+    om = ix.func(MC + ':original_and_model_iter_from_file_line_iter')
+    ok = False
+    for p in util.func_paths(ix, fo, wproc, H1()):
+        if p.kind != 'return':
+            continue
+        nm, recv, args, ev = call_of(p, p.val)
+        if ev is not None and len(args) == 2:
+            nm2, _, args2, ev2 = call_of(p, args[1])
+            lp = wproc.positional_params()[1].arg
+            ok = ev2 is not None and ev2.data.get('callee') is om and len(args2) == 1 and isinstance(args2[0], Sym) \
+                 and args2[0].origin[:2] == ('param', lp)
+    c.expect(ok, 'C05-i', 'selecting-applier/models-of-every-line',
+             'the -at applier does not feed original_and_model_iter_from_file_line_iter(<lines>) to the replacement', wproc.loc())
+
+
+# ------------------------------------------------------------------ j: filter / grep
+def clause_j(c: Check):
+    """filter (and grep, which is filter on `contents matches`): EVAL of the line selection on explicit pairs
+    (line as read, line model) with every pattern of verdicts: the output is exactly the lines whose model matches,
+    each as read, in order. (Which pairs are produced for a line-number interval is C13.)"""
+    ix, fo = c.ix, c.fo
+    cls = ix.cls(ST + 'filter.line_matcher:_ContentsViaAsLines')
+    f = ix.class_member(cls, '_transform_lines')
+    pairs_f = ix.class_member(cls, '_line_and_line_matcher_models')
+    mr = ix.cls('exactly_lib.type_val_prims.matcher.matching_result:MatchingResult')
+    n = 0
+    for width in (0, 1, 2, 3):
+        for verdicts in itertools.product((True, False), repeat=width):
+            lines = text_lines(width)
+            models = [Sym('model%d' % i) for i in range(width)]
+            pairs = ListVal([ListVal([l, m_], True) for l, m_ in zip(lines, models)])
+            asked = []
+
+            class H(Hooks):
+                loop_bound = 4
+
+                def inline(self, fd, st):
+                    return False
+
+                def on_call(self, interp, node, callee, callee_def, args, kwargs, st):
+                    if callee_def is pairs_f:
+                        return [('val', pairs, st)]
+                    if isinstance(node.func, ast.Attribute) and node.func.attr in ('matches_w_trace', 'matches') and len(args) == 1:
+                        idx = [i for i, m_ in enumerate(models) if args[0] is m_]
+                        if len(idx) == 1:
+                            asked.append(idx[0])
+                            v = verdicts[idx[0]]
+                            return [('val', K(Record(mr, {'value': v, 'trace': Sym('trace')})) if node.func.attr == 'matches_w_trace' else K(v), st)]
+                    return None
+
+            it = Interp(ix, fo, H())
+            obj = it.new_obj(cls)
+            st = State()
+            st.heap[(obj.oid, '_line_matcher')] = Sym('line-matcher')
+            for p in it.run_function(f, {f.positional_params()[1].arg: Sym('lines')}, st, recv=obj):
+                n += 1
+                c.count()
+                got = None
+                if p.kind == 'return' and isinstance(p.val, ListVal):
+                    got = [next((i for i, l in enumerate(lines) if x is l), '?') for x in p.val.items]
+                elif p.kind in ('return', 'normal'):
+                    ys = [e.data for e in p.trace if e.kind == 'yield']
+                    if ys or p.val is None or p.val is NONE or (isinstance(p.val, K) and p.val.v is None):
+                        got = [next((i for i, l in enumerate(lines) if x is l), '?') for x in ys]
+                want = [i for i, v in enumerate(verdicts) if v]
+                c.expect(got == want, 'C05-j', 'filter/%s' % (''.join('T' if v else 'F' for v in verdicts) or 'empty'),
+                         'filter with line verdicts %s gives lines %s (expected %s, each as read)' % (list(verdicts), got, want), f.loc())
+    c.floor('C05-j', 'verdict patterns the line filter is evaluated on', n, 15)
+    # grep REGEX is filter on the line matcher `contents matches REGEX`
+    g = ix.func(ST + 'filter.parse:GrepShortcutParser.parse')
+    flt = ix.func(ST + 'filter.line_matcher:sdv')
+    cont = ix.func(LM + 'impl.contents.parse:sdv')
+    mat = ix.func('exactly_lib.impls.types.string_matcher.parse.matches:parse')
+    n_ret = 0
+
+    class HG(Hooks):
+        def inline(self, fd, st):
+            return False
+
+    for p in util.func_paths(ix, fo, g, HG()):
+        if p.kind != 'return':
+            continue
+        n_ret += 1
+        nm, _, a1, e1 = call_of(p, p.val)
+        ok = e1 is not None and e1.data.get('callee') is flt and len(a1) == 2
+        if ok:
+            nm2, _, a2, e2 = call_of(p, a1[1])
+            ok = e2 is not None and e2.data.get('callee') is cont and len(a2) == 1
+            if ok:
+                nm3, _, a3, e3 = call_of(p, a2[0])
+                ok = e3 is not None and e3.data.get('callee') is mat and len(a3) == 1 and isinstance(a3[0], Sym) \
+                     and a3[0].origin[:2] == ('param', g.positional_params()[1].arg)
+        c.expect(ok, 'C05-j', 'grep/is-filter-on-contents-matches',
+                 'grep REGEX is built as %s (expected the line filter on the line matcher `contents` of the text '
+                 'matcher `matches REGEX` parsed from the arguments)' % util.describe(p.val), g.loc())
+    c.require(n_ret >= 1, 'C05-j: the parser of grep has no returning path')
+
+
+# ------------------------------------------------------------------ k: identity
+def clause_k(c: Check):
+    """identity gives its input: `_transform(lines)` returns `lines`, and it reports itself as identity"""
+    ix, fo = c.ix, c.fo
+    cls = ix.cls(ST + 'identity:IdentityStringTransformer')
+    f = ix.class_member(cls, '_transform')
+    lv = Sym('lines')
+    it = Interp(ix, fo, Hooks())
+    for p in it.run_function(f, {f.positional_params()[1].arg: lv}):
+        c.expect(p.kind == 'return' and p.val is lv, 'C05-k', 'identity/returns-its-input',
+                 'identity gives %s' % (util.describe(p.val) if p.kind == 'return' else p.kind), f.loc())
+    idf = ix.class_member(cls, 'is_identity_transformer')
+    vals = {p.val.v if p.kind == 'return' and isinstance(p.val, K) else '?' for p in util.func_paths(ix, fo, idf, Hooks())}
+    c.expect(vals == {True}, 'C05-k', 'identity/is-identity', 'identity reports is_identity_transformer=%s' % sorted(map(str, vals)), idf.loc())
+
+
+# ------------------------------------------------------------------ l: layers
+def clause_l(c: Check):
+    """PLUMB sweep over the packages of the text matchers / transformers / line matchers / regex: no construction
+    cross-wires two arguments (see common.sweep_cross_wiring); REC sweep over their data classes"""
+    from .common import sweep_cross_wiring, sweep_records
+    pk = ['exactly_lib.impls.types.string_matcher', 'exactly_lib.impls.types.string_transformer',
+          'exactly_lib.impls.types.line_matcher', 'exactly_lib.impls.types.matcher', 'exactly_lib.impls.types.regex']
+    sweep_cross_wiring(c, 'C05-l', pk, floor=40)
+    sweep_records(c, 'C05-rec', pk, floor=3)
+
+
+# ------------------------------------------------------------------ m: the prefix reader of equals
+def clause_m(c: Check):
+    """EVAL of read_lines_as_str__w_minimum_num_chars on explicit lists of lines: the text returned is the
+    concatenation of the first k lines, in order, for the k lines taken from the iterator - nothing read is left
+    out; reading stops early only under a test that compares what was read with the requested minimum"""
+    ix, fo = c.ix, c.fo
+    f = ix.func('exactly_lib.util.str_.read_lines:read_lines_as_str__w_minimum_num_chars')
+    pp = f.positional_params()
+    mnp = [p.arg for p in pp if p.annotation is not None and unparse(p.annotation) == 'int']
+    lp = [p.arg for p in pp if p.arg not in mnp]
+    c.require(len(mnp) == 1 and len(lp) == 1, 'C05-m: parameters of the prefix reader not recognised')
+
+    class H(Hooks):
+        loop_bound = 4
+        record_comparisons = True
+
+    n = 0
+    for width in (0, 1, 2, 3):
+        lines = text_lines(width)
+        it = Interp(ix, fo, H())
+        mn = Sym('minimum', origin=('param', mnp[0], f.key))
+        for p in it.run_function(f, {lp[0]: ListVal(list(lines)), mnp[0]: mn}):
+            if p.kind != 'return':
+                continue
+            n += 1
+            c.count()
+            v = p.val.items[0] if isinstance(p.val, ListVal) and len(p.val.items) == 2 else None
+            sc = v if isinstance(v, StrCat) else (StrCat([v]) if isinstance(v, K) and isinstance(v.v, str) else None)
+            ok = sc is not None
+            k = None
+            if ok:
+                for k_ in range(width + 1):
+                    if sc.key() == StrCat(list(lines[:k_])).key():
+                        k = k_
+                ok = k is not None
+            c.expect(ok, 'C05-m', 'prefix-reader/%d-lines/text-is-a-prefix-of-whole-lines' % width,
+                     'from %d lines the reader gives %r (expected the concatenation of the first k lines)' % (width, sc if sc is not None else util.describe(p.val)),
+                     f.loc())
+            if ok and k < width:
+                # stopped early: the last decisive test compared something with the minimum
+                cm = [e for e in p.trace if e.kind == 'cmp' and (e.data[1] is mn or e.data[2] is mn)]
+                c.expect(bool(cm), 'C05-m', 'prefix-reader/%d-lines/stops-only-at-the-minimum' % width,
+                         'the reader stops after %d of %d lines without comparing what it has read with the requested '
+                         'minimum' % (k, width), f.loc())
+                # what is compared with the minimum when reading stops is the length of exactly the lines returned
+                sums = []
+                for e in cm:
+                    other = e.data[2] if e.data[1] is mn else e.data[1]
+                    counted = []
+                    for x in _flatten_op(other):
+                        nm, _, a, _ = call_of(p, x)
+                        if nm == 'len' and len(a) == 1 and any(a[0] is l for l in lines):
+                            counted.append(a[0])
+                    if counted:
+                        sums.append(counted)
+                if sums:
+                    counted = sums[-1]
+                    idx = sorted(i for i, l in enumerate(lines) if any(l is x for x in counted))
+                    c.expect(idx == list(range(k)) and len(counted) == k, 'C05-m',
+                             'prefix-reader/%d-lines/minimum-is-reached-by-what-is-returned' % width,
+                             'the reader stops when the lengths of lines %s reach the minimum but returns lines %s: the '
+                             'text returned may be shorter than the minimum asked for (equals then takes a proper '
+                             'prefix for the whole text)' % (idx, list(range(k))), f.loc())
+    c.floor('C05-m', 'paths of the prefix reader', n, 6)
